@@ -141,6 +141,17 @@ def t_misc():
     return out
 
 
+@case
+def t_preds():
+    out = []
+    for s in ["", "a", "A", "aB", "ab1", "AB1", "1", "١", "ǅ", "ǆa", "ß", " a", "a b", "É", "éa", "_", "a_"]:
+        for name in ["isalnum", "isdigit", "isalpha", "islower", "isupper", "isspace", "isascii", "isdecimal"]:
+            if not s:
+                continue
+            out.append((lambda s=s, name=name: models.model_str_pred(_pinned(s), name), (lambda s=s, name=name: getattr(s, name)())))
+    return out
+
+
 def run():
     ctx.start()
     ws_ok = category_ranges(r"\s") == rt.ranges([c for c in range(0x110000) if chr(c).isspace()])
